@@ -307,7 +307,9 @@ Proof. intros H. split; cbn; try (intros; discriminate); try (intros; contradict
 
 Lemma s_step_inv st o : s_inv st -> s_inv (s_next_st st o).
 Proof.
-  intros [Hn Hi Hl Hs]. unfold s_next_st, s_step. destruct o as [h mac|id].
+  intros [Hn Hi Hl Hs]. unfold s_next_st, s_step. destruct o as [h mac|id|n].
+  3: { destruct ((1 <=? n) && (n <=? 65535)) eqn:En; [|split; assumption].
+       apply andb_true_iff in En. destruct En as [E1 E2]. split; cbn; try assumption. lia. }
   - destruct (session_cap <=? N.of_nat (length (s_sess st))); [split; assumption|].
     destruct (scan_id (N.to_nat 65536) (s_sess st) (s_next st)) as [id|] eqn:Es; [|split; assumption].
     destruct (scan_id_spec _ _ _ _ Hn Es) as [Hfree Hid]. cbn. split; cbn.
@@ -371,6 +373,7 @@ Definition s_guard (st : sst) (o : sop) : bool :=
   match o with
   | SCreate _ mac => negb (existsb (fun x => smac x =? mac) (s_live st))
   | SRemove _ => true
+  | SSetNext _ => true
   end.
 Fixpoint s_run_g (st : sst) (ops : list sop) : option sst :=
   match ops with
@@ -396,8 +399,10 @@ Record m_inv (st : sst) : Prop := {
 
 Lemma m_step_inv st o : m_inv st -> s_guard st o = true -> m_inv (s_next_st st o).
 Proof.
-  intros [I F R D] G. pose proof (s_step_inv st o I) as I'. split; [exact I'| | |]; clear I';
-  destruct I as [Hn Hi Hl Hs]; unfold s_next_st, s_step in *; destruct o as [h mac|id].
+  intros [I F R D] G. pose proof (s_step_inv st o I) as I'.
+  split; [exact I'| | |]; clear I';
+  destruct I as [Hn Hi Hl Hs]; unfold s_next_st, s_step in *; destruct o as [h mac|id|n];
+  try (unfold mac_index_agrees in *; destruct ((1 <=? n) && (n <=? 65535)); cbn; assumption).
   - destruct (session_cap <=? N.of_nat (length (s_sess st))); [exact F|].
     destruct (scan_id (N.to_nat 65536) (s_sess st) (s_next st)) as [id|] eqn:Es; [|exact F].
     cbn. intros x Hx. cbn in Hx |- *. rewrite aget_aset. apply in_app_or in Hx. destruct Hx as [Hx|[<-|[]]].
